@@ -167,11 +167,19 @@ def run(ctx):
         starts = [m for (m, lab) in gn.succs if lab == glab]
         if loader._reach_from(g, starts, [g.exit] + list(g.returns), cut=wnodes):
             leak = True
-    ctx.check('utc' in kinds and 'fresh' in kinds and not leak, 'C14-cache', 'both outcomes recorded in %s' % L['fname'],
+    # (the recording may have been moved into a cache helper the loader calls: not followed, no verdict)
+    from .c20 import cache_helpers as _ch, call_targets as _call_targets
+    H_ = _ch(ctx.G)
+    delegated = [x for x in walk(L['fn']) if x.get('kind') in ('CallExpr', 'CXXMemberCallExpr') and callee(x) and callee(x)[0] in ('fn', 'method')
+                 and any(t in H_ and 'write' in H_[t]['kinds'] for t in _call_targets(ctx.G, x))]
+    no_verdict = not L['slot_writes'] and bool(delegated)
+    ctx.check3(None if no_verdict else ('utc' in kinds and 'fresh' in kinds and not leak), 'C14-cache', 'both outcomes recorded in %s' % L['fname'],
               L['slot_writes'][0]['node'] if L['slot_writes'] else L['fn'],
               'the cache does not record both outcomes of a load (success: the new Impl; failure: the UTC '
               'singleton): a name that failed to load is retried, or a loaded one is forgotten',
-              construct='outcomes:%s' % L['fname'], detail='success and failure arms present; absent slot always filled')
+              construct='outcomes:%s' % L['fname'], detail='success and failure arms present; absent slot always filled',
+              unknown_why='the cache slot is written inside a helper the loader calls (%s): which outcomes it records is not followed'
+              % (pos(delegated[0]) if delegated else ''))
     # every load site is post-dominated by a slot write  (failure is cached too)
     pdom = g.postdominators()
     for s in L['sites']:
@@ -182,6 +190,10 @@ def run(ctx):
         slotrefs = [n for w in L['slot_writes'] for n in g.nodes_for(w['node'])]
         guard_nodes = _slot_guard_nodes(ctx, L, g)
         ok = bool(sn) and all(x.id in pdom and any(t.id in pdom[x.id] for t in guard_nodes + slotrefs) for x in sn)
+        if not ok and no_verdict:
+            # the helper call that records the outcome post-dominates the load?
+            dn = [n for x in delegated for n in g.nodes_for(x)]
+            ok = bool(sn) and all(x.id in pdom and any(t.id in pdom[x.id] for t in dn) for x in sn)
         ctx.check(ok, 'C14-cache', 'load outcome recorded in %s' % L['fname'], s,
                   'a path from the load leaves the loader without consulting/recording the cache slot: the '
                   'outcome of that load is forgotten and the source is consulted again next time',
